@@ -215,6 +215,10 @@ func histIlv(c *core.Ctx, t *core.Trace, gen string, cas int, md wbMode) {
 	w.useLayout(worldLayouts[r.Intn(len(worldLayouts))])
 	w.gate = true
 	w.final = r.Intn(6) != 0
+	if r.Intn(2) == 0 {
+		w.refs, w.refPlain = refsLoadable, md.plainVals
+		w.fixEnv()
+	}
 	w.initialFile(1+r.Intn(4), md.exoticKeys, md.forms, md.plainVals)
 	pre := []string{"", "", "", "whatap."}[r.Intn(4)]
 	suf := []string{"", "", "", ".go"}[r.Intn(4)]
